@@ -30,8 +30,8 @@ def obligations(tier):
            encodes=["html5lib/constants.py:entities", "html5lib/constants.py:replacementCharacters"]),
         Ob("C14.numeric.digit-limit", "z3", "harness.C14_z3:digit_limit", 120, bounds="CONCRETE boundary lemma at the interpreter's int/str digit limit and chr()'s C int limits (not a solver result)", replay="harness.C14_z3:replay_digit_limit", encodes=ENC_N),
     ] + [
-        Ob("C14.reverse-map/first-%d" % i, "crosshair", "harness.C14:reverse_map", T, param={"first": i, "kmax": 2 if q else 3}, bounds="object of <= %d characters over a 15-character class alphabet starting with RALPHA[%d], every start/end window" % (2 if q else 3, i),
-           encodes=["html5lib/serializer.py:htmlentityreplace_errors", "html5lib/serializer.py:_encode_entity_map"]) for i in range(15)
+        Ob("C14.reverse-map/first-%d" % i, "crosshair", "harness.C14:reverse_map", T, param={"first": i, "kmax": 2 if q else 3}, bounds="object of <= %d characters over a 17-character class alphabet starting with RALPHA[%d], every start/end window" % (2 if q else 3, i),
+           encodes=["html5lib/serializer.py:htmlentityreplace_errors", "html5lib/serializer.py:_encode_entity_map"]) for i in range(17)
     ] + [
         Ob("C14.numeric.leading-zeros/ctx%d" % ctx, "crosshair", "harness.C14:numeric_leading_zeros", T, param={"ctx": ctx, "zmax": 12 if q else 40},
            bounds="'&#', '&#x', '&#X' + 0..%d leading zeros + one class digit + '1' + optional ';', context %d; int() NOT stubbed" % (12 if q else 40, ctx), encodes=ENC_N + ENC_E) for ctx in range(5)
